@@ -197,6 +197,23 @@ func Bindings(g *groups.Info, seed int64, n int) []Binding {
 	if n >= 3 {
 		out[n-1] = bytePool[0]
 	}
+	// scalar types that keep unreduced encodings as they are: one binding always loads û unreduced
+	// (û + k*q < 2^256, largest k), whatever the seed
+	if g.UnreducedOK && n >= 2 && out[1].Load != "unreduced" {
+		v := new(big.Int).Set(out[1].U)
+		lim := new(big.Int).Lsh(big.NewInt(1), 256)
+		for {
+			nx := new(big.Int).Add(v, q)
+			if nx.Cmp(lim) >= 0 {
+				break
+			}
+			v = nx
+		}
+		raw := make([]byte, 32)
+		v.FillBytes(raw)
+		out[1].Load = "unreduced"
+		out[1].UBytes = reverse(raw)
+	}
 	for i := range out {
 		out[i].Codec = rng.Intn(3)
 		out[i].HSeed = fmt.Sprintf("H-%d-%d", seed, i)
